@@ -47,7 +47,7 @@ EXPECTED_PROBES = ["skip_name_at_depth_ge2", "skip_name_absent", "skip_name_is_a
                    "skip_name_is_group", "skip_name_is_path_attr", "type_skip_subclass_hit",
                    "skip_name_repeated_across_levels", "skip_as_bare_string", "type_skip_removed",
                    "one_object_under_two_names", "shared_object_skipped_under_one_name_only",
-                   "third_generation", "empty_skip_argument"]
+                   "third_generation", "empty_skip_argument", "cycle_closed_by_a_skipped_attribute"]
 
 LEAF_KINDS = ["int", "float", "bool", "none", "str", "path", "list", "tuple", "dict", "set", "nd",
               "npscalar", "tensor", "module", "numseq"]
@@ -147,8 +147,14 @@ def gen(rng: Rng, tier, i):
         if x.chance(0.5) and new not in S:
             S = S + [new]
             S2 = S2 + [new]
+    # a BACK-REFERENCE from a child to the root: such a graph can only be saved because the skip list
+    # names the attribute that closes the cycle
+    cyc = None
+    kids = [n for n, s_ in g["attrs"] if s_["k"] == "obj" and s_["cls"] not in ("AttrsLike", "Hybrid")]
+    if kids and g["cls"] != "AttrsLike" and x.chance(0.1):
+        cyc = [x.pick(kids), x.pick(["owner", "parent", "_root"])]
     return {"graph": g, "S": S, "S1": S1, "S2": S2, "T": T, "form": form, "store": store,
-            "alias": alias,
+            "alias": alias, "cycle": cyc,
             # how the load-time list is spelled, repeated entries, empty skip arguments, generations
             "load_form": x.pick(["same", "same", "list", "tuple", "set", "frozenset", "dict_keys"]),
             "dups": x.chance(0.2), "empty_skip": x.pick([None, None, "list", "tuple", "str", "set"]),
@@ -191,8 +197,11 @@ def prune(obj, paths):
     return obj
 
 
-def _build(plan):
+def _build(plan, with_cycle=False):
     o = graphs.build(plan["graph"])
+    cy = plan.get("cycle")
+    if with_cycle and cy and cy[0] in vars(o) and cy[1] not in vars(vars(o)[cy[0]]):
+        vars(o)[cy[0]].__dict__[cy[1]] = o          # child -> root
     al = plan.get("alias")
     if al and al[0] in vars(o) and al[1] not in vars(o):
         o.__dict__[al[1]] = o.__dict__[al[0]]      # one object, two names
@@ -262,8 +271,14 @@ def run(plan):
                 bump(res["probes"], "type_skip_subclass_hit")
         del orig
 
-        def do(tag, save_skip, load_skip, name, second=False, types_at_save=()):
-            obj = _build(plan)
+        cyc = plan.get("cycle")
+        cyc_ok = bool(cyc) and cyc[0] in vars(_build(plan)) and not any(
+            cyc[1] == n for n, _, _ in names)
+        if cyc_ok:
+            bump(res["probes"], "cycle_closed_by_a_skipped_attribute")
+
+        def do(tag, save_skip, load_skip, name, second=False, types_at_save=(), with_cycle=False):
+            obj = _build(plan, with_cycle=with_cycle)
             sk = _skip_arg(save_skip, plan["form"], types_at_save, dups=plan.get("dups", False))
             _, exc, _ = E.save(obj, E.path(name + ext), mode="w", skip=sk, **kw) if (
                 save_skip or types_at_save) else E.save(obj, E.path(name + ext), mode="w", **kw)
@@ -296,6 +311,9 @@ def run(plan):
                     bump(res["probes"], "third_generation")
             return got
 
+        attrs_field_skipped_early = any(
+            s_["k"] == "obj" and s_["cls"] == "AttrsLike" and any(n in S for n, _ in s_["attrs"])
+            for _, s_ in graphs.walk(spec))
         r0 = do("H0", [], [], "h0")
         if r0 is None:
             E.finish(res)
@@ -334,6 +352,14 @@ def run(plan):
                 check("H0e save(skip=<empty>);load(skip=<empty>)", "empty_skip_not_neutral", got, [])
         h1 = do("H1", S, [], "h1")
         check("H1 save(skip=S);load()", "skip_at_save", h1, rp_names)
+        if cyc_ok:
+            # the cyclic graph, saved with the cycle-closing attribute in the skip list: the result
+            # is the acyclic graph's result (same pruning), for one and for two generations
+            hc = do("H1c", list(S) + [cyc[1]], [], "h1c", with_cycle=True)
+            check(f"H1c cyclic graph, save(skip=S+[{cyc[1]!r}]);load()", "skip_at_save", hc, rp_names)
+            if not attrs_field_skipped_early:
+                hc2 = do("H4c", list(S) + [cyc[1]], [], "h4c", second=True, with_cycle=True)
+                check("H4c cyclic graph, two generations", "skip_generation", hc2, rp_names)
         h2 = do("H2", [], S, "h2")
         check("H2 save();load(skip=S)", "skip_at_load", h2, rp_names)
         if h1 is not None and h2 is not None:
@@ -410,7 +436,7 @@ def shrink(plan):
         p = copy.deepcopy(plan)
         p["mix_types_into_names"] = False
         yield p
-    for key, plain in (("alias", None), ("load_form", "same"), ("dups", False), ("empty_skip", None),
+    for key, plain in (("alias", None), ("cycle", None), ("load_form", "same"), ("dups", False), ("empty_skip", None),
                        ("gens", 2)):
         if plan.get(key) not in (None, plain):
             yield {**copy.deepcopy(plan), key: plain}
